@@ -82,7 +82,7 @@ Qed.
 
 Lemma code_stmt2_length T1 T2 b1 b2 c : length (code_stmt2 T1 b1 c) = length (code_stmt2 T2 b2 c).
 Proof.
-  revert b1 b2. induction c; intros b1 b2; cbn [code_stmt2]; try reflexivity.
+  revert b1 b2. induction c using card_ind'; intros b1 b2; cbn [code_stmt2]; try reflexivity.
   - destruct op; try reflexivity; cbv zeta; rewrite !app_length; cbn [length];
       rewrite (code_expr_length T1 T2 c1), (IHc2 _ (b2 + bytes (code_expr T2 c1) + 5)); reflexivity.
   - destruct op; try reflexivity. cbv zeta. rewrite !app_length. cbn [length]. rewrite !app_length. cbn [length].
@@ -90,11 +90,63 @@ Proof.
     rewrite (IHc3 _ (b2 + bytes (code_expr T2 c1) + 5 + bytes (code_stmt2 T2 (b2 + bytes (code_expr T2 c1) + 5) c2) + 5)).
     reflexivity.
   - rewrite !app_length, (code_expr_length T1 T2). reflexivity.
+  - (* Composite *)
+    change (length (code_stmt2 T1 b1 (CComposite ty cards)) = length (code_stmt2 T2 b2 (CComposite ty cards))).
+    rewrite !code_stmt2_composite. revert b1 b2.
+    match goal with HF : Forall _ cards |- _ => induction HF as [|x r Hx _ IHr] end; intros b1 b2; [reflexivity|].
+    cbn [code_main2]. cbv zeta. rewrite !app_length, (Hx b1 b2). f_equal. apply IHr.
+Qed.
+
+Definition cards_sim_res2 (pre : list instr) (cards : list card) (gr : list (str * RefSem.value)) (gv : list (option value)) : Prop :=
+  let code := code_main2 T (bytes pre) cards in
+  let '(okf, gr') := run_cards2 gr cards in
+  gsimple gr' /\
+  if okf then
+    exists k gv', (k <= length code)%nat /\ steps' k (bytes pre, [], gv) (bytes (pre ++ code), [], gv') /\ grel' gr' gv'
+  else
+    exists k c1 nm, (k < length code)%nat /\ steps' k (bytes pre, [], gv) c1 /\
+                    exec_err' c1 (EVarNotFound nm) /\ grel' gr' (snd c1).
+
+Lemma cards_sim2_gen cards : Forall stmt_sim cards -> (forall c, In c cards -> (S (stmt_depth2 c) < cap)%nat) ->
+  forall pre gr gv,
+    seg' pre (code_main2 T (bytes pre) cards) ->
+    (forall n, In n (main_names2 cards) -> In n names /\ nm_find (handle_of_bytes n) T <> None) ->
+    grel' gr gv -> gsimple gr -> cards_sim_res2 pre cards gr gv.
+Proof.
+  induction 1 as [|c r Hc Hcr IH]; intros Hd pre gr gv Hseg Hnames Hrel Hsimp; unfold cards_sim_res2.
+  - cbn [run_cards2 code_main2 length]. split; [exact Hsimp|]. exists 0%nat, gv. rewrite app_nil_r.
+    split; [lia|]. split; [constructor | exact Hrel].
+  - assert (Hdr : forall c0, In c0 r -> (S (stmt_depth2 c0) < cap)%nat) by (intros c0 H0; apply Hd; right; exact H0).
+    specialize (Hd c (or_introl eq_refl)).
+    cbn [code_main2 main_names2 flat_map run_cards2] in *. cbv zeta in *.
+    set (cc := code_stmt2 T (bytes pre) c) in *.
+    assert (Hnc : forall n, In n (stmt_names2 c) -> In n names /\ nm_find (handle_of_bytes n) T <> None)
+      by (intros n Hn; apply Hnames, in_or_app; auto).
+    assert (Hnr : forall n, In n (main_names2 r) -> In n names /\ nm_find (handle_of_bytes n) T <> None)
+      by (intros n Hn; apply Hnames, in_or_app; auto).
+    pose proof (Hc pre gr gv (seg_app_l _ _ _ _ Hseg) Hnc Hd Hrel Hsimp) as H1.
+    unfold stmt_sim_res in H1. fold cc in H1.
+    destruct (run_stmt2 gr c) as [okf g1]. destruct H1 as [Hs1 H1].
+    destruct okf.
+    + destruct H1 as (k1 & gv1 & Hk1 & Hst1 & Hr1).
+      assert (Eb : bytes (pre ++ cc) = bytes pre + bytes cc) by apply bytes_app.
+      pose proof (IH Hdr (pre ++ cc) g1 gv1 ltac:(rewrite Eb; apply seg_app_r; exact Hseg) Hnr Hr1 Hs1) as H2.
+      unfold cards_sim_res2 in H2. rewrite Eb in H2.
+      destruct (run_cards2 g1 r) as [okf2 g2]. destruct H2 as [Hs2 H2]. split; [exact Hs2|].
+      destruct okf2.
+      * destruct H2 as (k2 & gv2 & Hk2 & Hst2 & Hr2). exists (k1 + k2)%nat, gv2.
+        split; [rewrite app_length; lia|]. split; [|exact Hr2].
+        eapply steps_trans; [exact Hst1|]. rewrite Eb, app_assoc. exact Hst2.
+      * destruct H2 as (k2 & c1 & nm & Hk2 & Hst2 & Herr & Hr2). exists (k1 + k2)%nat, c1, nm.
+        split; [rewrite app_length; lia|]. split; [|auto].
+        eapply steps_trans; [exact Hst1|]. rewrite Eb. exact Hst2.
+    + split; [exact Hs1|]. destruct H1 as (k & c1 & nm & Hk & Hst & Herr & Hr').
+      exists k, c1, nm. split; [rewrite app_length; lia | auto].
 Qed.
 
 Lemma stmt_f2_sim c : stmt_f2 c = true -> stmt_sim c.
 Proof.
-  induction c; intros Hc; cbn [stmt_f2] in Hc; try discriminate Hc;
+  induction c using card_ind'; intros Hc; cbn [stmt_f2] in Hc; try discriminate Hc;
     intros pre gr gv Hseg Hnames Hdepth Hrel Hsimp; unfold stmt_sim_res.
   - (* IfTrue / IfFalse *)
     destruct op; try discriminate Hc; apply andb_true_iff in Hc; destruct Hc as [He Hb];
@@ -230,28 +282,30 @@ Proof.
     cbn [run_stmt2 code_stmt2 length]. split; [exact Hsimp|]. exists 0%nat, gv. rewrite app_nil_r.
     split; [lia|]. split; [constructor | exact Hrel].
   - (* SetGlobalVar *)
-    assert (Hd1 : depth_ok [CSetGlobalVar name c] = true).
+    assert (Hd1 : depth_ok [CSetGlobalVar n c] = true).
     { cbn [depth_ok forallb stmt_depth andb]. cbn [stmt_depth2] in Hdepth. rewrite andb_true_r. apply Nat.ltb_lt. exact Hdepth. }
-    pose proof (cards_sim F bld P T names T_lt T_inj names_inj [CSetGlobalVar name c]
+    pose proof (cards_sim F bld P T names T_lt T_inj names_inj [CSetGlobalVar n c]
                   ltac:(cbn [forallb stmt_f1]; rewrite Hc; reflexivity) Hd1 pre gr gv
                   ltac:(cbn [code_main flat_map]; rewrite app_nil_r; exact Hseg)
                   ltac:(cbn [main_names flat_map]; rewrite app_nil_r; exact Hnames) Hrel Hsimp) as H1.
     unfold cards_sim_res in H1. cbn [run_cards code_main flat_map] in H1. rewrite app_nil_r in H1.
     cbn [run_stmt2 code_stmt2 code_stmt] in *.
-    destruct (ev gr c) as [v|]; destruct H1 as [Hs' H1]; (split; [exact Hs'|]).
+    destruct (ev gr c) as [v0|]; destruct H1 as [Hs' H1]; (split; [exact Hs'|]).
     + destruct H1 as (gv' & Hst & Hr'). eexists _, gv'. split; [apply le_n|]. split; [exact Hst | exact Hr'].
     + exact H1.
+  - (* Composite *)
+    assert (Hall : Forall stmt_sim cards).
+    { match goal with HF : Forall _ cards |- _ => rename HF into HFall end. clear - HFall Hc.
+      induction HFall as [|x r Hx _ IHr]; [constructor|].
+      cbn [forallb] in Hc. apply andb_true_iff in Hc. destruct Hc as [H1 H2].
+      constructor; [apply Hx, H1 | apply IHr, H2]. }
+    assert (Hdep : forall c0, In c0 cards -> (S (stmt_depth2 c0) < cap)%nat).
+    { intros c0 H0. pose proof (stmt_depth2_composite ty cards c0 H0). lia. }
+    rewrite code_stmt2_composite in Hseg.
+    pose proof (cards_sim2_gen cards Hall Hdep pre gr gv Hseg Hnames Hrel Hsimp) as H1.
+    unfold cards_sim_res2 in H1. rewrite code_stmt2_composite, run_stmt2_composite. exact H1.
 Qed.
 
-Definition cards_sim_res2 (pre : list instr) (cards : list card) (gr : list (str * RefSem.value)) (gv : list (option value)) : Prop :=
-  let code := code_main2 T (bytes pre) cards in
-  let '(okf, gr') := run_cards2 gr cards in
-  gsimple gr' /\
-  if okf then
-    exists k gv', (k <= length code)%nat /\ steps' k (bytes pre, [], gv) (bytes (pre ++ code), [], gv') /\ grel' gr' gv'
-  else
-    exists k c1 nm, (k < length code)%nat /\ steps' k (bytes pre, [], gv) c1 /\
-                    exec_err' c1 (EVarNotFound nm) /\ grel' gr' (snd c1).
 
 Lemma cards_sim2 cards : forallb stmt_f2 cards = true -> depth_ok2 cards = true ->
   forall pre gr gv,
@@ -259,35 +313,12 @@ Lemma cards_sim2 cards : forallb stmt_f2 cards = true -> depth_ok2 cards = true 
     (forall n, In n (main_names2 cards) -> In n names /\ nm_find (handle_of_bytes n) T <> None) ->
     grel' gr gv -> gsimple gr -> cards_sim_res2 pre cards gr gv.
 Proof.
-  induction cards as [|c r IH]; intros Hc Hd pre gr gv Hseg Hnames Hrel Hsimp; unfold cards_sim_res2.
-  - cbn [run_cards2 code_main2 length]. split; [exact Hsimp|]. exists 0%nat, gv. rewrite app_nil_r.
-    split; [lia|]. split; [constructor | exact Hrel].
-  - cbn [forallb depth_ok2] in Hc, Hd. apply andb_true_iff in Hc, Hd. destruct Hc as [Hc Hcr], Hd as [Hd Hdr].
-    apply Nat.ltb_lt in Hd.
-    cbn [code_main2 main_names2 flat_map run_cards2] in *. cbv zeta in *.
-    set (cc := code_stmt2 T (bytes pre) c) in *.
-    assert (Hnc : forall n, In n (stmt_names2 c) -> In n names /\ nm_find (handle_of_bytes n) T <> None)
-      by (intros n Hn; apply Hnames, in_or_app; auto).
-    assert (Hnr : forall n, In n (main_names2 r) -> In n names /\ nm_find (handle_of_bytes n) T <> None)
-      by (intros n Hn; apply Hnames, in_or_app; auto).
-    pose proof (stmt_f2_sim c Hc pre gr gv (seg_app_l _ _ _ _ Hseg) Hnc Hd Hrel Hsimp) as H1.
-    unfold stmt_sim_res in H1. fold cc in H1.
-    destruct (run_stmt2 gr c) as [okf g1]. destruct H1 as [Hs1 H1].
-    destruct okf.
-    + destruct H1 as (k1 & gv1 & Hk1 & Hst1 & Hr1).
-      assert (Eb : bytes (pre ++ cc) = bytes pre + bytes cc) by apply bytes_app.
-      pose proof (IH Hcr Hdr (pre ++ cc) g1 gv1 ltac:(rewrite Eb; apply seg_app_r; exact Hseg) Hnr Hr1 Hs1) as H2.
-      unfold cards_sim_res2 in H2. rewrite Eb in H2.
-      destruct (run_cards2 g1 r) as [okf2 g2]. destruct H2 as [Hs2 H2]. split; [exact Hs2|].
-      destruct okf2.
-      * destruct H2 as (k2 & gv2 & Hk2 & Hst2 & Hr2). exists (k1 + k2)%nat, gv2.
-        split; [rewrite app_length; lia|]. split; [|exact Hr2].
-        eapply steps_trans; [exact Hst1|]. rewrite Eb, app_assoc. exact Hst2.
-      * destruct H2 as (k2 & c1 & nm & Hk2 & Hst2 & Herr & Hr2). exists (k1 + k2)%nat, c1, nm.
-        split; [rewrite app_length; lia|]. split; [|auto].
-        eapply steps_trans; [exact Hst1|]. rewrite Eb. exact Hst2.
-    + split; [exact Hs1|]. destruct H1 as (k & c1 & nm & Hk & Hst & Herr & Hr').
-      exists k, c1, nm. split; [rewrite app_length; lia | auto].
+  intros Hc Hd. apply cards_sim2_gen.
+  - clear Hd. induction cards as [|c r IH]; [constructor|].
+    cbn [forallb] in Hc. apply andb_true_iff in Hc. destruct Hc as [H1 H2].
+    constructor; [apply stmt_f2_sim, H1 | apply IH, H2].
+  - intros c Hin. unfold depth_ok2 in Hd. rewrite forallb_forall in Hd. specialize (Hd c Hin).
+    apply Nat.ltb_lt in Hd. exact Hd.
 Qed.
 
 End Run2.
